@@ -316,7 +316,7 @@ func gridPair(r *gen.RNG, nx, ny, gap int) (ref.Bits, ref.Bits) {
 	x := ref.Encode(sx, cx, e)
 	ey := e - gap
 	var cy *big.Int
-	rel := r.Intn(6)
+	rel := r.Intn(7)
 	switch rel {
 	case 0: // random of the requested length
 		cy = r.Digits(ny)
@@ -346,6 +346,13 @@ func gridPair(r *gen.RNG, nx, ny, gap int) (ref.Bits, ref.Bits) {
 			}
 		case 5: // differ deep inside
 			cy.Add(cy, r.BigBelow(ref.Pow10(r.Range(1, 34))))
+		case 6: // differ in exactly one digit position (zeros below it)
+			d := new(big.Int).Mul(big.NewInt(int64(r.Range(1, 9))), ref.Pow10(r.Intn(34)))
+			if r.Bool() {
+				cy.Add(cy, d)
+			} else {
+				cy.Sub(cy, d)
+			}
 		}
 	}
 	if cy.Sign() < 0 {
